@@ -484,7 +484,9 @@ func (f *lFailing) Tags(ctx context.Context, repo, startAfter string) ociregistr
 }
 
 func (f *lFailing) Referrers(ctx context.Context, repo string, d ociregistry.Digest, artifactType string) ociregistry.Seq[ociregistry.Descriptor] {
-	return lFailSeq(f, func() ociregistry.Seq[ociregistry.Descriptor] { return f.Interface.Referrers(ctx, repo, d, artifactType) },
+	return lFailSeq(f, func() ociregistry.Seq[ociregistry.Descriptor] {
+		return f.Interface.Referrers(ctx, repo, d, artifactType)
+	},
 		func(d ociregistry.Descriptor) string { return string(d.Digest) })
 }
 
